@@ -263,6 +263,23 @@ Fixpoint run_rules (rs : list rw_rule) (st : rstate) : rstate :=
 Definition rewrite_rules_run (rs : list rw_rule) (u : url) : option rstate :=
   if rules_accept rs then Some (run_rules rs (mkSt u None)) else None.
 
+(* ---- the rewrite rule table and its reload path (loadConfData -> ReWriteConfLoad -> ReWriteTable.Update) ---- *)
+Definition rw_conf := list (bytes * list rw_rule).          (* product -> rule list; product names distinct *)
+Definition rw_conf_ok (c : rw_conf) : bool := forallb (fun pr => rules_accept (snd pr)) c.
+Fixpoint rw_lookup (product : bytes) (t : rw_conf) : option (list rw_rule) :=
+  match t with
+  | [] => None
+  | (p, rs) :: rest => if bytes_eqb product p then Some rs else rw_lookup product rest
+  end.
+(* Update REPLACES the product map; a rejected file leaves the table as it was *)
+Definition rw_table_load (t c : rw_conf) : rw_conf := if rw_conf_ok c then c else t.
+(* rewriteHandler: the product's rules of the current table, nothing for an unknown product *)
+Definition rw_request (t : rw_conf) (product : bytes) (u : url) : rstate :=
+  match rw_lookup product t with
+  | Some rs => run_rules rs (mkSt u None)
+  | None => mkSt u None
+  end.
+
 (* ---------- mod_header ---------- *)
 (* isTokenTable *)
 Definition is_tchar (c : Z) : bool :=
@@ -389,6 +406,50 @@ Definition header_run (vars : list (bytes * bytes)) (cmd : bytes) (params : list
     end
   else None.
 
+(* ---- the header rule table and its reload path (loadConfData -> HeaderConfLoad -> HeaderTable.Update) ---- *)
+(* rule = (condition matches, Last, actions); every rule needs at least one action and every action must load.
+   classifyRuleByAction splits a rule's actions by side (REQ_ / RSP_), keeping condition and Last for both;
+   a rule without actions of a side does not exist for that side (its Last does not stop that side's scan). *)
+Definition hd_rule := (bool * bool * list (bytes * list bytes))%type.
+Definition hd_action_ok (a : bytes * list bytes) : bool :=
+  header_accepts (fst a) (snd a) && match header_cmd (fst a) with Some _ => true | None => false end.
+Definition hd_rule_ok (r : hd_rule) : bool := nonempty (snd r) && forallb hd_action_ok (snd r).
+Definition hd_conf := list (bytes * list hd_rule).
+Definition hd_conf_ok (c : hd_conf) : bool := forallb (fun pr => forallb hd_rule_ok (snd pr)) c.
+Fixpoint hd_lookup (product : bytes) (t : hd_conf) : option (list hd_rule) :=
+  match t with
+  | [] => None
+  | (p, rs) :: rest => if bytes_eqb product p then Some rs else hd_lookup product rest
+  end.
+Definition hd_table_load (t c : hd_conf) : hd_conf := if hd_conf_ok c then c else t.
+(* HeaderActionsDo for the actions of one side *)
+Definition hd_apply_actions (side : bool) (vars : list (bytes * bytes)) (acts : list (bytes * list bytes)) (h : header) : header :=
+  fold_left (fun h a =>
+    match header_cmd (fst a) with
+    | Some (is_req, c) => if Bool.eqb is_req side then header_apply c (header_params vars c (snd a)) h else h
+    | None => h
+    end) acts h.
+(* classifyRules: for each side a rule takes part only if it has an action of that side *)
+Definition hd_has_side (side : bool) (acts : list (bytes * list bytes)) : bool :=
+  existsb (fun a => match header_cmd (fst a) with Some (is_req, _) => Bool.eqb is_req side | None => false end) acts.
+(* DoHeader *)
+Fixpoint hd_run_rules (side : bool) (vars : list (bytes * bytes)) (rs : list hd_rule) (h : header) : header :=
+  match rs with
+  | [] => h
+  | (m, last, acts) :: rest =>
+    if m && hd_has_side side acts
+    then let h' := hd_apply_actions side vars acts h in if last then h' else hd_run_rules side vars rest h'
+    else hd_run_rules side vars rest h
+  end.
+Definition s_global := Eval compute in bs "global".
+(* reqHeaderHandler / rspHeaderHandler (default headers disabled): the rules of product "global" first, then the
+   request's product *)
+Definition hd_side (t : hd_conf) (side : bool) (vars : list (bytes * bytes)) (product : bytes) (h : header) : header :=
+  let h1 := match hd_lookup s_global t with Some rs => hd_run_rules side vars rs h | None => h end in
+  match hd_lookup product t with Some rs => hd_run_rules side vars rs h1 | None => h1 end.
+Definition hd_request (t : hd_conf) (vars : list (bytes * bytes)) (product : bytes) (req rsp : header) : header * header :=
+  (hd_side t true vars product req, hd_side t false vars product rsp).
+
 (* ---------- bfe_basic/action used directly (Action.UnmarshalJSON + Action.Do, no allow-list) ---------- *)
 Definition direct_run (cmd : bytes) (params : list bytes) (u : url) (h : header) : option (rstate * header) :=
   if action_file_check cmd params then
@@ -437,6 +498,40 @@ Definition redirect_run (cmd : bytes) (params : list bytes) (u : url) : option b
   if redirect_accepts cmd params then
     match rd_cmd_of cmd with Some c => Some (rd_do c params u) | None => None end
   else None.
+
+(* ---- the redirect rule table and its reload path (loadConfData -> redirectConfLoad -> RedirectTable.Update) ---- *)
+(* a rule: (condition matches, the single action, status); redirectRuleCheck: exactly one acceptable action, status <> 0 *)
+Definition rd_rule := (bool * list (bytes * list bytes) * Z)%type.
+Definition rd_rule_ok (r : rd_rule) : bool :=
+  match snd (fst r) with
+  | [(c, p)] => redirect_accepts c p && negb (snd r =? 0)
+  | _ => false
+  end.
+Definition rd_conf := list (bytes * list rd_rule).
+Definition rd_conf_ok (c : rd_conf) : bool := forallb (fun pr => forallb rd_rule_ok (snd pr)) c.
+Fixpoint rd_lookup (product : bytes) (t : rd_conf) : option (list rd_rule) :=
+  match t with
+  | [] => None
+  | (p, rs) :: rest => if bytes_eqb product p then Some rs else rd_lookup product rest
+  end.
+Definition rd_table_load (t c : rd_conf) : rd_conf := if rd_conf_ok c then c else t.
+Fixpoint rd_first_match (rs : list rd_rule) : option rd_rule :=
+  match rs with
+  | [] => None
+  | r :: rest => if fst (fst r) then Some r else rd_first_match rest
+  end.
+(* redirectHandler: Some (Location, status) = BfeHandlerRedirect *)
+Definition rd_request (t : rd_conf) (product : bytes) (u : url) : option (bytes * Z) :=
+  match rd_lookup product t with
+  | None => None
+  | Some rs =>
+    match rd_first_match rs with
+    | Some (_, [(c, p)], status) =>
+      match rd_cmd_of c with Some rc => Some (rd_do rc p u, status) | None => Some ([], status) end
+    | Some (_, _, status) => Some ([], status)
+    | None => None
+    end
+  end.
 
 (* ================= specification side ================= *)
 (* every documented command is accepted by its loader (with the documented number of parameters for mod_header) *)
